@@ -28,7 +28,7 @@ const MAX_SAMPLES: usize = 8;
 const MAX_WITNESS_PER_SIG: u64 = 1;
 const MAX_SIGS: usize = 200;
 
-#[derive(Clone, Debug)]
+#[derive(Clone, Debug, PartialEq, Eq)]
 pub struct PanicInfo {
     pub msg: String,
     pub loc: String,
@@ -151,6 +151,10 @@ impl Watchdog {
         let _ = (&out_path, &prop);
         Watchdog { t0 }
     }
+    /// A watchdog handle that never starts a thread (for helper contexts on worker threads).
+    pub fn inert() -> Watchdog {
+        Watchdog { t0: Instant::now() }
+    }
     /// Publish the case about to run.  `label` must be a 'static string.
     #[inline]
     pub fn enter(&self, label: &'static str, buf: &[u8]) {
@@ -196,10 +200,16 @@ pub struct Ctx {
     pub eventlog_left: u64,
     pub replaying: bool,
     pub requires: BTreeMap<String, u64>,
+    pub quiet: bool,
 }
 
 impl Ctx {
     pub fn new(prop: &str, tier: Tier, seed: u64, shard: u64, nshards: u64, out: Option<String>) -> Ctx {
+        let wd = Watchdog::start(out, prop.to_string(), 10_000);
+        Ctx::new_with(prop, tier, seed, shard, nshards, wd)
+    }
+
+    fn new_with(prop: &str, tier: Tier, seed: u64, shard: u64, nshards: u64, wd: Watchdog) -> Ctx {
         install_panic_hook();
         let build = if cfg!(miri) {
             "miri"
@@ -229,13 +239,21 @@ impl Ctx {
             notes: vec![],
             inconclusive: vec![],
             sets: BTreeMap::new(),
-            wd: Watchdog::start(out, prop.to_string(), 10_000),
+            wd,
+            quiet: false,
             t0: Instant::now(),
             eventlog: None,
             eventlog_left: 0,
             replaying: false,
             requires: BTreeMap::new(),
         }
+    }
+
+    /// A context without its own watchdog thread (worker threads of the C20 variants).
+    pub fn new_quiet(prop: &str, tier: Tier, seed: u64, shard: u64, nshards: u64) -> Ctx {
+        let mut c = Ctx::new_with(prop, tier, seed, shard, nshards, Watchdog::inert());
+        c.quiet = true;
+        c
     }
 
     /// scale a case count by tier budget
